@@ -38,6 +38,11 @@ def gen_cases(ctx, n_trees, maxdepth):
                     cases.append((envp, e))
                 except Exception:
                     pass
+    # extreme magnitudes: tiny / huge / exactly-zero operands for every operator variant
+    ext = dg.extreme_cases(order=(2 if OPCODE == 2 else 1))
+    if ctx.tier != "thorough":
+        ext = [c for c in ext if rng.random() < 0.5]
+    cases += ext
     # every single operator variant on a variable, and on (x op y), explicitly
     unary = ["neg", "negref", "exp", "log", "ncdf", "nicdf", "abs"]
     for t in unary:
